@@ -795,7 +795,7 @@ def native_verdict(case_op, nat):
         return False, f'{len(calls)} handler invocations'
     c = calls[0]
     for k, v in case_op.items():
-        if k in ('op', 'endpoint', 'ret', 'ret_opt', 'async_server'):
+        if k in ('op', 'endpoint', 'ret', 'ret_opt', 'ret_list', 'async_server'):
             continue
         if k == 'set_arg':
             if sorted(set(c.get(k) or [])) != sorted(set(v)):
@@ -803,6 +803,8 @@ def native_verdict(case_op, nat):
             continue
         if c.get(k) != v:
             return False, f'argument {k}: client gave {v!r}, handler received {c.get(k)!r}'
+    if 'ret_list' in case_op and nat.get('returned') != case_op['ret_list']:
+        return False, f'client returned {nat.get("returned")!r}, handler returned {case_op["ret_list"]!r}'
     if 'ret_opt' in case_op and nat.get('returned') != case_op['ret_opt']:
         return False, f'client returned {nat.get("returned")!r}, handler returned {case_op["ret_opt"]!r}'
     if 'ret' in case_op and nat.get('returned') != case_op['ret']:
@@ -948,7 +950,7 @@ def run_generated(rep, tier):
 
     def mk(rets):
         tm = {**bodyio.TMODELS, **ep.TMODELS, **models_serde.TMODELS}
-        for g in ('g1', 'g2', 'g3', 'g4', 'g5', 'g6'):
+        for g in ('g1', 'g2', 'g3', 'g4', 'g5', 'g6', 'g7'):
             tm[('Handler', 'Gsvc', g)] = T_handler
         tm[('MockClient', 'Client', 'send')] = make_send(prog, servers, handles, rets)
         tm[('MockClient', 'AsyncClient', 'send')] = make_send_async(tm[('MockClient', 'Client', 'send')])
@@ -1173,7 +1175,9 @@ def run(rep, tier):
              {'op': 'loopback_gen', 'endpoint': 'g4', 'set_arg': [''], 'opt_body': '', 'ret_opt': ''},
              {'op': 'loopback_gen', 'endpoint': 'g5', 'tok': 'a/b+c=', 'qt': 'x+/=='}, {'op': 'loopback_gen', 'endpoint': 'g5', 'tok': '~._-', 'qt': '0'},
              {'op': 'loopback_gen', 'endpoint': 'g6', 'lst_arg': [], 'set_arg': [], 'q_arg': b'x&y'.hex()}, {'op': 'loopback_gen', 'endpoint': 'g6', 'lst_arg': [], 'set_arg': [b'='.hex()], 'q_arg': ''},
-             {'op': 'loopback_gen', 'endpoint': 'g6', 'lst_arg': [7, -1], 'set_arg': [], 'q_arg': b'?'.hex()}]
+             {'op': 'loopback_gen', 'endpoint': 'g6', 'lst_arg': [7, -1], 'set_arg': [], 'q_arg': b'?'.hex()},
+             # g7 returns an alias of list<integer>: the empty value travels as 204 and must come back as the empty alias
+             {'op': 'loopback_gen', 'endpoint': 'g7', 'ret_list': []}, {'op': 'loopback_gen', 'endpoint': 'g7', 'ret_list': [3, -4]}]
     # the same requests against the async server flavour
     twins += [dict(t, async_server=True) for t in twins]
     for op, nat in zip(twins, replay(twins)):
